@@ -21,14 +21,14 @@ META = {
                    "symbolic nodes and compared, for all displacements, with the parent's geometry on the mapped cells / "
                    "faces; the face and node index maps are compared with the parent topology",
     "assumptions": ["floats as exact reals", f"2x2 Cartesian / 2x2 structured triangle grid, 1-2 nodes displaced by symbolic "
-                    f"(dx, dy) in [-{PERT}, {PERT}]^2", "cell subsets: all subsets of the 4 Cartesian cells, sampled subsets "
+                    f"(dx, dy) in [-{PERT}, {PERT}]^2; a 2x1x1 Cartesian grid with 1-2 nodes displaced in x, y", "cell subsets: all subsets of the 4 Cartesian cells, sampled subsets "
                     "of the 8 triangles; cell lists in ascending and in arbitrary order, each with `sort` True and False"],
     "stubs": ["np.sqrt(x): |t| when x is syntactically t*t, otherwise fresh r >= 0 with r*r == x"],
     "outside": ["extraction from faces (faces=True: lower-dimensional grids embedded in the plane)",
                 "partition_coordinates / partition_metis / overlap / grid_is_connected: their inputs and outputs are "
                 "concrete integer arrays (nothing for a solver to decide); partition_structured is covered by plain "
                 "ENUMERATION of fine / coarse dimensions (2-d up to 7x5, four 3-d cases), reported as such",
-                "3-d grids for the extraction part"],
+                "3-d grids other than two hexahedra with 1-2 nodes displaced in x, y"],
 }
 
 
@@ -49,6 +49,11 @@ def shards(tier, seed):
                 if len(cs) > 1 and rnd.random() < 0.6:
                     rnd.shuffle(order)          # unsorted input, with sort=True as well as sort=False
                 out.append({"kind": kind, "cells": order, "sort": sort, "nodes": ns})
+    # a small 3-d grid (two hexahedra, node order within the faces matters for the recomputed geometry)
+    cases3d = []
+    for cs, srt in (([0], True), ([1], True), ([0, 1], True), ([1, 0], True), ([1, 0], False)):
+        for ns in ([4], [0, 7]):
+            cases3d.append({"kind": "cart3d", "cells": cs, "sort": srt, "nodes": ns})
     # partitioners: concrete enumeration (no symbolic input exists for them), kept here because the
     # property names them; every cell must get exactly one part index within range
     dims2 = [(nx, ny) for nx in range(2, 8) for ny in range(2, 6)]
@@ -59,7 +64,7 @@ def shards(tier, seed):
     for fd, cd in (((5, 4, 7), (2, 3, 3)), ((3, 3, 3), (2, 2, 2)), ((4, 5, 3), (3, 2, 2)), ((6, 2, 5), (4, 1, 2))):
         out.append({"kind": "partition", "fine": list(fd), "coarse": list(cd)})
     k = 8 if tier == "quick" else 16
-    return [{"cases": out[i::k]} for i in range(k)]
+    return [{"cases": out[i::k]} for i in range(k)] + [{"cases": cases3d}]
 
 
 def configure(cfg, tier):
@@ -118,6 +123,21 @@ def h_partition(ctx, c):
         ctx.sample({"case": c})
 
 
+def _cyclic_order_kept(h, g, uf, un):
+    fn_h, fn_p = h.face_nodes.tocsc(), g.face_nodes.tocsc()
+    un = np.asarray(un)
+    for f in range(h.num_faces):
+        a = un[fn_h.indices[fn_h.indptr[f]:fn_h.indptr[f + 1]]].tolist()
+        b = fn_p.indices[fn_p.indptr[uf[f]]:fn_p.indptr[uf[f] + 1]].tolist()
+        if len(a) != len(b):
+            return False
+        rots = [b[i:] + b[:i] for i in range(len(b))]
+        rots += [r[::-1] for r in rots]
+        if a not in rots:
+            return False
+    return True
+
+
 def harness(ctx, c):
     import porepy as pp
 
@@ -167,8 +187,16 @@ def harness(ctx, c):
     for f in range(h.num_faces):
         nh = fn_h.indices[fn_h.indptr[f]:fn_h.indptr[f + 1]]
         npar = fn_p.indices[fn_p.indptr[uf[f]]:fn_p.indptr[uf[f] + 1]]
-        topo &= un[nh].tolist() == npar.tolist()
-    ctx.check("node-map-points-to-the-parent-nodes-of-each-face (same order)", bool(topo), case)
+        topo &= sorted(un[nh].tolist()) == sorted(npar.tolist())
+    # (the order of the nodes within a face matters for the geometry of 3-d faces: covered by the recomputed
+    # geometry of the 3-d shards, not demanded as such)
+    ctx.check("node-map-points-to-the-parent-nodes-of-each-face", bool(topo), case)
+    if g.dim == 3:
+        cyc = _cyclic_order_kept(h, g, uf, un)
+        ctx.check("3-d faces keep the cyclic order of their nodes (the polygon they describe)", cyc, case)
+        if not cyc:
+            ctx.reach("end")
+            return
     ctx.check("node-coordinates-are-the-parent's", _eqv(h.nodes, np.asarray(g.nodes, dtype=object)[:, un]), case)
     ctx.check("faces-and-nodes-exactly-those-of-the-cells",
               sorted(set(uf.tolist())) == sorted({int(f) for cp in pc for f in cf_p.indices[cf_p.indptr[cp]:cf_p.indptr[cp + 1]]})
@@ -229,6 +257,8 @@ def replay_case(case):
     problems = []
     if not np.array_equal(h.parent_cell_ind, pc):
         problems.append("parent_cell_ind")
+    if g.dim == 3 and not _cyclic_order_kept(h, g, np.asarray(uf), un):
+        return True, f"{c}: the nodes of a 3-d face of the extracted grid are not in the cyclic order of the parent face"
     if not np.allclose(h.nodes, g.nodes[:, un]):
         problems.append("node coordinates")
     if not (np.allclose(h.cell_volumes, g.cell_volumes[pc]) and np.allclose(h.face_normals, g.face_normals[:, uf])):
